@@ -53,6 +53,11 @@ VARIANTS = [
         "proposed_log_prob + log_correction - current_log_prob"),
       note="the O(1) correction is added to one huge log-density first and rounds away",
       expect_rule="C05.R1"),
+    V("c05_builder_rebinds_model", "M", "liesel/goose/builder.py", "EngineBuilder.build",
+      lambda nd: isinstance(nd, ast.If) and ast.unparse(nd.test) == "not ker.has_model()",
+      lambda nd: nd.body,
+      note="a kernel bound to its own interface is re-bound to the builder's",
+      expect_rule="C05.R5"),
     # ---- twins
     V("c05_t_corr_first", "T", F, S, *replace_expr(
         "proposed_log_prob - current_log_prob + log_correction",
